@@ -87,6 +87,10 @@ pub struct Scenario {
     pub depth: u8,
     #[serde(default)]
     pub max_clones: u8,
+    /// How world 0 is constructed when every initial capacity is 0: 0 = with_capacity (all zero), 1 = World::new(),
+    /// 2 = Default::default(), 3 = std::mem::take of a populated-then-emptied world's sibling (Default through take).
+    #[serde(default)]
+    pub ctor: u8,
     /// H2 preset applied to the active archetypes of world 0: (slot generation, archetype version).
     #[serde(default)]
     pub preset: Option<(u32, u32)>,
@@ -403,7 +407,18 @@ impl Sys {
             m.init_cap[*a as usize] = n;
             m.last_cap[*a as usize] = n;
         }
-        let mut w = guard("C12", "with_capacity", || Ok(W::with_capacity(cap)))?;
+        let zero = sc.caps.iter().all(|c| *c == 0);
+        let mut w = match (zero, sc.ctor) {
+            (true, 1) => guard("C12", "World::new", || Ok(W::new()))?,
+            (true, 2) => guard("C12", "World::default", || Ok(W::default()))?,
+            (true, 3) => guard("C12", "mem::take", || {
+                let mut tmp = W::with_capacity(cap);
+                let fresh = std::mem::take(&mut tmp);
+                drop(tmp);
+                Ok(fresh)
+            })?,
+            _ => guard("C12", "with_capacity", || Ok(W::with_capacity(cap)))?,
+        };
         if let Some((sg, ag)) = sc.preset {
             for (j, a) in sc.archs.iter().enumerate() {
                 with_arch!(*a as usize, A => <A as Arch>::preset(&mut w, sg, ag));
